@@ -62,6 +62,15 @@ func cmdBigCharge(args []string) int {
 		tip := []*big.Int{big.NewInt(0), p10(9), new(big.Int).Set(price)}[r.Intn(3)]
 		value := []*big.Int{big.NewInt(0), big.NewInt(1), p10(18), p10(21)}[r.Intn(4)]
 		typ := r.Intn(3)
+		if r.Intn(5) == 0 {
+			// a tip beyond 64 bits (2^64 + 1) under a cap of 2^65: nothing in the price arithmetic may be done in machine words
+			typ = 2
+			tip = new(big.Int).Add(new(big.Int).Lsh(big.NewInt(1), 64), big.NewInt(1))
+			price = new(big.Int).Lsh(big.NewInt(1), 65)
+			if gasLimit > 5_000_000 {
+				gasLimit = 5_000_000
+			}
+		}
 		to := c.Accts[1].Addr
 		if r.Intn(3) == 0 {
 			to, value = flip, big.NewInt(0)
